@@ -767,8 +767,14 @@ class ExcelCompiler:
                 # the reference depends on the range it refers to
                 add_node_to_graph(self.cell_map[str(address)])
 
-            self.range_todos.append(str(excel_data.address))
-            new_nodes = build_range(excel_data)
+            if excel_data.address.is_range:
+                self.range_todos.append(str(excel_data.address))
+                new_nodes = build_range(excel_data)
+            elif str(excel_data.address) not in self.cell_map:
+                # an unbounded range which is just one cell of the used area
+                new_nodes = build_cell(excel_data)
+            else:
+                new_nodes = []
         else:
             new_nodes = build_cell(excel_data)
 
@@ -794,9 +800,12 @@ class ExcelCompiler:
             if cell_range.address.is_unbounded_range:
                 bounded_addr = str(self.eval(cell_range))
                 bounded_addr_cell = self.cell_map.get(bounded_addr)
-                if bounded_addr_cell.value is None:
-                    self._evaluate_range(bounded_addr)
-                data = bounded_addr_cell.value
+                if not bounded_addr_cell.address.is_range:
+                    data = ((self._evaluate(bounded_addr), ), )
+                else:
+                    if bounded_addr_cell.value is None:
+                        self._evaluate_range(bounded_addr)
+                    data = bounded_addr_cell.value
 
             elif cell_range.formula is None:
                 data = tuple(
